@@ -55,6 +55,27 @@ def run_buf_stream(run, a, pid, sub, binpath, fail_pids):
     return out
 
 
+def oracle_sound_buf(run, names):
+    """the Buf / Mut judges' oracles never fire on the model's own behaviour (Props/OracleSoundBuf.lean)"""
+    mod = 'BytesVerif.Props.OracleSoundBuf'
+    res = vlib.lake_build([mod])
+    import re as _re
+    src = open(os.path.join(vlib.LEAN, 'BytesVerif/Props/OracleSoundBuf.lean')).read()
+    m = _re.search(r'^namespace\s+(\S+)', src, _re.M)
+    ns = (m.group(1) + '.') if m else ''
+    full = [ns + t for t in names]
+    if res[mod][0]:
+        ok, found, problems = vlib.audit_axioms([mod], full, run.pid + '_orcb')
+    else:
+        ok, found, problems = False, {}, [t + ': module does not build' for t in full]
+    for t in full:
+        bad = [p for p in problems if p.startswith(t + ':')]
+        run.obligation(t, not bad, '; '.join(bad))
+        run.axioms[t] = found.get(t)
+    if problems:
+        run.breakage('oracle-soundness theorems (Props/OracleSoundBuf.lean) no longer check', '\n'.join(problems[:6]))
+
+
 BUF_TRUST = [
     "hand transliteration of src/buf/{buf_impl,chain,take,vec_deque,iter,reader}.rs into Model/Buf.lean (tied by T2: results and full "
     "adapter-tree state compared after every op)",
@@ -67,6 +88,7 @@ BUF_TRUST = [
 def c09(run, a):
     vlib.extract()
     vlib.standard_lean_phase(run, 'BytesVerif.Props.C09')
+    oracle_sound_buf(run, ['read_oracle_sound'])
     run.trusted += BUF_TRUST
     dbg = vlib.cargo_build('debug')
     run_buf_stream(run, a, 'C09', 'cursor', dbg, {'C09'})
@@ -86,6 +108,7 @@ def c09(run, a):
 def c12(run, a):
     vlib.extract()
     vlib.standard_lean_phase(run, 'BytesVerif.Props.C12', None, ['BytesVerif.Props.C11'])
+    oracle_sound_buf(run, ['read_oracle_sound', 'write_sound', 'write_sound_default'])
     for t in ['BytesVerif.BufMut.limit_room', 'BytesVerif.BufMut.limit_putSlice_inner', 'BytesVerif.BufMut.chain_putSlice_inner', 'BytesVerif.BufMut.writerWrite_spec']:
         ok, found, problems = vlib.audit_axioms(['BytesVerif.Props.C11'], [t], 'C12w')
         run.obligation(t, ok, '; '.join(problems))
@@ -112,6 +135,7 @@ def c10(run, a):
     info = vlib.extract()
     run.cov['extracted'] = info.get('Getters.lean')
     props_ok, cert_ok = vlib.standard_lean_phase(run, 'BytesVerif.Props.C10', 'BytesVerif.Cert.C10')
+    oracle_sound_buf(run, ['read_oracle_sound'])
     run.trusted += BUF_TRUST + [
         "tools/extract.py (T1): getter bodies -> Body terms (sibling calls inlined), method name -> Spec, sign_extend / macro-arm / "
         "try_copy_to_slice text fingerprints, deref_forward_buf! rows; fail-closed",
@@ -184,6 +208,7 @@ def c11(run, a):
     info = vlib.extract()
     run.cov['extracted'] = info.get('Putters.lean')
     props_ok, cert_ok = vlib.standard_lean_phase(run, 'BytesVerif.Props.C11', 'BytesVerif.Cert.C11')
+    oracle_sound_buf(run, ['write_sound', 'write_sound_default'])
     run.trusted += [
         "hand transliteration of src/buf/{buf_mut,limit,chain,writer,uninit_slice}.rs and `unsafe impl BufMut for BytesMut` into "
         "Model/BufMut.lean (tied by T2: results and full target-tree state compared after every op; spare capacities re-synchronised "
